@@ -1761,11 +1761,13 @@ def strategies():
     def c_simppow(draw):
         p = draw(st.sampled_from(['2', '2', '4', '-2', '3', '1/2', 'a', 'n', '2 * n', '1/3', '-1', '6']))
         q = draw(st.sampled_from(['1/2', '1/2', '3/2', '1/4', '-1/2', '1/3', '2', '3', 'a', '-1', 'n', '1/6']))
-        c = draw(st.sampled_from(['2', '1/2', '3', '-2', '-1', '10']))
-        base = draw(st.sampled_from(['x', 'x', '(x - 1)', 'sin(x)', '(x + a)', '-x', 'cos(x)']))
-        e = draw(st.sampled_from(['(%(b)s ^ %(p)s) ^ %(q)s', '(1 / %(b)s ^ %(p)s) ^ %(q)s', '%(c)s ^ (x + %(p)s)', '%(c)s ^ (x - %(p)s)',
-                                  '(-%(b)s) ^ %(p)s', '(-%(b)s - a) ^ %(p)s', 'exp(%(p)s * log(%(b)s))', '(%(b)s ^ %(p)s) ^ %(q)s + %(b)s',
-                                  'INT x:[-1,2]. (%(b)s ^ %(p)s) ^ %(q)s', 'sqrt((%(b)s ^ %(p)s) ^ %(q)s)', '((%(b)s ^ %(p)s) ^ %(q)s) ^ %(p)s'])) % \
+        c = draw(st.sampled_from(['2', '(1/2)', '3', '(-2)', '(-1)', '10']))
+        base = draw(st.sampled_from(['x', 'x', '(x - 1)', 'sin(x)', '(x + a)', '(-x)', 'cos(x)']))
+        e = draw(st.sampled_from(['(%(b)s ^ (%(p)s)) ^ (%(q)s)', '(%(b)s ^ (%(p)s)) ^ (%(q)s)', '(1 / %(b)s ^ (%(p)s)) ^ (%(q)s)',
+                                  '%(c)s ^ (x + (%(p)s))', '%(c)s ^ (x - (%(p)s))',
+                                  '(-%(b)s) ^ (%(p)s)', '(-%(b)s - a) ^ (%(p)s)', 'exp((%(p)s) * log(%(b)s))',
+                                  '(%(b)s ^ (%(p)s)) ^ (%(q)s) + %(b)s', 'INT x:[-1,2]. (%(b)s ^ (%(p)s)) ^ (%(q)s)',
+                                  'sqrt((%(b)s ^ (%(p)s)) ^ (%(q)s))', '((%(b)s ^ (%(p)s)) ^ (%(q)s)) ^ (%(p)s)'])) % \
             {'b': base, 'p': p, 'q': q, 'c': c}
         return {'kind': 'rule', 'rule': draw(st.sampled_from(['OnSubterm:SimplifyPower', 'SimplifyPower', 'FullSimplify'])), 'e': e, 'params': {},
                 'conds': draw(conds), 'seeds': draw(seeds)}
@@ -1832,9 +1834,9 @@ def strategies():
     return S
 
 
-QUICK_N = {'Simplify': 110, 'FullSimplify': 110, 'normalize': 110, 'Linearity': 80, 'Substitution': 150, 'SubstitutionInverse': 110,
-           'IntegrationByParts': 100, 'SplitRegion': 90, 'ExpandPolynomial': 80, 'Equation': 170, 'ApplyIdentity': 120,
-           'ElimInfInterval': 60, 'LHopital': 80, 'deriv': 110, 'DerivativeSimplify': 80, 'SimplifyPower': 110, 'ReduceLimit': 110,
+QUICK_N = {'Simplify': 120, 'FullSimplify': 120, 'normalize': 120, 'Linearity': 90, 'Substitution': 180, 'SubstitutionInverse': 120,
+           'IntegrationByParts': 120, 'SplitRegion': 100, 'ExpandPolynomial': 90, 'Equation': 200, 'ApplyIdentity': 150,
+           'ElimInfInterval': 80, 'LHopital': 100, 'deriv': 120, 'DerivativeSimplify': 90, 'SimplifyPower': 150, 'ReduceLimit': 150,
            'bounds': 300, 'roundtrip': 600}
 
 
@@ -1929,7 +1931,7 @@ def shards(tier):
     mult = 1 if tier == 'quick' else 30
     for gname in sorted(QUICK_N):
         n = QUICK_N[gname] * mult
-        k = max(1, -(-n // (60 if gname not in ('roundtrip', 'bounds') else 150))) if tier == 'quick' else 24
+        k = max(1, -(-n // (40 if gname not in ('roundtrip', 'bounds') else 150))) if tier == 'quick' else 32
         for i, m in enumerate(harness.split(n, k)):
             out.append({'kind': 'gen', 'gen': gname, 'n': m, 'i': i})
     # long shards first
@@ -1960,7 +1962,14 @@ def _run_shard(desc, seed, tier, H):
             _strategies['S'] = strategies()
         strat = _strategies['S'][desc['gen']]
 
+        seen = set()
+
         def body(case):
+            key = harness.canon({k: v for k, v in case.items() if k != 'seeds'})
+            if key in seen:
+                H.note('gen_duplicate_skipped')
+                return
+            seen.add(key)
             run_case(case, H)
         harness.hyp_run(strat, body, desc['n'], seed)
 
